@@ -200,15 +200,17 @@ theorem migs_rel_mem {c c' : Cluster} (hrel : ChunksRel c.chunks c'.chunks) {x :
     obtain ⟨m, hm, rfl⟩ := List.mem_map.mp hmem
     exact ⟨m, Cluster.migs_of_getElem? hch (Or.inr hm), hf m⟩
 
-theorem profile_rel {T : Nat → Nat} {N : Nat} {c c' : Cluster} (hprof : Profile T N c)
-    (hrel : ChunksRel c.chunks c'.chunks) : Profile T N c' := by
-  refine ⟨?_, ?_, ?_, ?_, ?_, ?_⟩
-  · intro ch' hch'
-    obtain ⟨i, hi⟩ := List.getElem?_of_mem hch'
-    obtain ⟨ch, hch, s0, s1, r0, r1⟩ := hrel.get hi
-    obtain ⟨d0, d1⟩ := hprof.disj ch (List.mem_of_getElem? hch)
-    rw [s0, s1]
-    exact ⟨(HalfDisj_rel r0).mpr d0, (HalfDisj_rel r1).mpr d1⟩
+theorem projInv_rel {c c' : Cluster} (hd : ProjInv c) (hrel : ChunksRel c.chunks c'.chunks) : ProjInv c' := by
+  intro ch' hch'
+  obtain ⟨i, hi⟩ := List.getElem?_of_mem hch'
+  obtain ⟨ch, hch, s0, s1, r0, r1⟩ := hrel.get hi
+  obtain ⟨d0, d1⟩ := hd ch (List.mem_of_getElem? hch)
+  rw [s0, s1]
+  exact ⟨(HalfDisj_rel r0).mpr d0, (HalfDisj_rel r1).mpr d1⟩
+
+theorem core_rel {T : Nat → Nat} {N : Nat} {c c' : Cluster} (hprof : ProfileCore T N c)
+    (hrel : ChunksRel c.chunks c'.chunks) : ProfileCore T N c' := by
+  refine ⟨?_, ?_, ?_, ?_, ?_⟩
   · intro i ch' hi
     obtain ⟨ch, hch, s0, s1, r0, r1⟩ := hrel.get hi
     obtain ⟨p0, p1⟩ := hprof.proj i ch hch
@@ -227,6 +229,10 @@ theorem profile_rel {T : Nat → Nat} {N : Nat} {c c' : Cluster} (hprof : Profil
     obtain ⟨ch, hch, s0, s1, _, _⟩ := hrel.get hi
     rw [s0, s1]
     exact hprof.asc ch (List.mem_of_getElem? hch)
+
+theorem profile_rel {T : Nat → Nat} {N : Nat} {c c' : Cluster} (hprof : Profile T N c)
+    (hrel : ChunksRel c.chunks c'.chunks) : Profile T N c' :=
+  (core_rel hprof.core hrel).withDisj (projInv_rel hprof.disj hrel)
 
 theorem pending_length_rel {l l' : List Chunk} (hrel : ChunksRel l l') :
     ((l'.flatMap Chunk.migs).filter (·.isMigrating)).length = ((l.flatMap Chunk.migs).filter (·.isMigrating)).length := by
